@@ -5,6 +5,8 @@ CONSTANTS
   MaxW = 8
   FreshOnly = TRUE
   Ops = {"bin", "un", "slice", "compose", "ext"}
+  Shape <- ShapeAny
+  LeafSet = {}
   AutoSimp = TRUE
   MapSpan = 6
   MapSrc = {}
